@@ -4,8 +4,11 @@ import (
 	"bytes"
 	"context"
 	"fmt"
+	"io"
 	"os"
 	"os/exec"
+	"path/filepath"
+	"regexp"
 	"runtime/debug"
 	"strings"
 	"sync"
@@ -256,11 +259,12 @@ func c09Depth(c *core.Ctx, bounds *[]string) {
 // ---- child process part: default depth limit, deeply nested source, memory growth ----
 
 type c09ChildProg struct {
-	name string
-	gen  func() string
+	name     string
+	gen      func() string
+	maxDepth int // 0 = default
 }
 
-func c09P(name, src string) c09ChildProg { return c09ChildProg{name, func() string { return src }} }
+func c09P(name, src string) c09ChildProg { return c09ChildProg{name, func() string { return src }, 0} }
 
 func c09ChildPrograms(kind string, quick bool) []c09ChildProg {
 	var out []c09ChildProg
@@ -272,21 +276,60 @@ func c09ChildPrograms(kind string, quick bool) []c09ChildProg {
 		}
 		for _, n := range sizes {
 			out = append(out,
-				c09ChildProg{fmt.Sprintf("parens-%d", n), func() string { return strings.Repeat("(", n) + "1" + strings.Repeat(")", n) }},
-				c09ChildProg{fmt.Sprintf("brackets-%d", n), func() string { return strings.Repeat("[", n) + "1" + strings.Repeat("]", n) }},
-				c09ChildProg{fmt.Sprintf("prefix-%d", n), func() string { return strings.Repeat("-", n) + "1" }},
-				c09ChildProg{fmt.Sprintf("blocks-%d", n), func() string { return strings.Repeat("if true {", n) + "1" + strings.Repeat("}", n) }},
-				c09ChildProg{fmt.Sprintf("lambdas-%d", n), func() string { return strings.Repeat("x=>", n) + "1" }},
-				c09ChildProg{fmt.Sprintf("index-%d", n), func() string { return "a" + strings.Repeat("[0]", n) }},
-				c09ChildProg{fmt.Sprintf("infix-%d", n), func() string { return "1" + strings.Repeat("+1", n) }},
-				c09ChildProg{fmt.Sprintf("calls-%d", n), func() string { return strings.Repeat("f(", n) + "1" + strings.Repeat(")", n) }},
-				c09ChildProg{fmt.Sprintf("callchain-%d", n), func() string { return "f" + strings.Repeat("()", n) }},
-				c09ChildProg{fmt.Sprintf("dotchain-%d", n), func() string { return "m" + strings.Repeat(".a", n) }},
-				c09ChildProg{fmt.Sprintf("mixed-%d", n), func() string { return strings.Repeat("(", n/9000+1) + "1" + strings.Repeat(strings.Repeat("+1", 9000)+")", n/9000+1) }},
-				c09ChildProg{fmt.Sprintf("stmts-%d", n), func() string { return strings.Repeat("1;", n) }},
-				c09ChildProg{fmt.Sprintf("elseif-%d", n), func() string { return strings.Repeat("if false {1} else ", n) + "{2}" }},
+				c09ChildProg{fmt.Sprintf("parens-%d", n), func() string { return strings.Repeat("(", n) + "1" + strings.Repeat(")", n) }, 0},
+				c09ChildProg{fmt.Sprintf("brackets-%d", n), func() string { return strings.Repeat("[", n) + "1" + strings.Repeat("]", n) }, 0},
+				c09ChildProg{fmt.Sprintf("prefix-%d", n), func() string { return strings.Repeat("-", n) + "1" }, 0},
+				c09ChildProg{fmt.Sprintf("blocks-%d", n), func() string { return strings.Repeat("if true {", n) + "1" + strings.Repeat("}", n) }, 0},
+				c09ChildProg{fmt.Sprintf("lambdas-%d", n), func() string { return strings.Repeat("x=>", n) + "1" }, 0},
+				c09ChildProg{fmt.Sprintf("index-%d", n), func() string { return "a" + strings.Repeat("[0]", n) }, 0},
+				c09ChildProg{fmt.Sprintf("infix-%d", n), func() string { return "1" + strings.Repeat("+1", n) }, 0},
+				c09ChildProg{fmt.Sprintf("calls-%d", n), func() string { return strings.Repeat("f(", n) + "1" + strings.Repeat(")", n) }, 0},
+				c09ChildProg{fmt.Sprintf("callchain-%d", n), func() string { return "f" + strings.Repeat("()", n) }, 0},
+				c09ChildProg{fmt.Sprintf("dotchain-%d", n), func() string { return "m" + strings.Repeat(".a", n) }, 0},
+				c09ChildProg{fmt.Sprintf("mixed-%d", n), func() string { return strings.Repeat("(", n/9000+1) + "1" + strings.Repeat(strings.Repeat("+1", 9000)+")", n/9000+1) }, 0},
+				c09ChildProg{fmt.Sprintf("stmts-%d", n), func() string { return strings.Repeat("1;", n) }, 0},
+				c09ChildProg{fmt.Sprintf("elseif-%d", n), func() string { return strings.Repeat("if false {1} else ", n) + "{2}" }, 0},
 			)
 		}
+		// recursion whose Go stack use per counted depth level is large: nested literals / arguments / operators /
+		// blocks around the recursive call are evaluated without counting towards MaxDepth
+		wrap := func(open, close string, k int) string {
+			return "func f(n) { " + strings.Repeat(open, k) + "f(n + 1)" + strings.Repeat(close, k) + " }; f(0)"
+		}
+		for _, md := range []int{0, 100, 1000, 10000, 100000} {
+			md := md
+			for _, k := range []int{30, 3000} {
+				k := k
+				for _, sh := range [][3]string{{"brackets", "[", "]"}, {"args", "g(", ")"}, {"neg", "-(", ")"}, {"maps", "{1: ", "}"}, {"index", "a[", "]"}, {"plus", "(1 + ", ")"}, {"ifs", "if true { ", " }"}, {"lambdas", "(() => ", ")()"}} {
+					sh := sh
+					out = append(out, c09ChildProg{fmt.Sprintf("heavy-%s-k%d-md%d", sh[0], k, md), func() string { return wrap(sh[1], sh[2], k) }, md})
+				}
+			}
+			out = append(out, c09ChildProg{fmt.Sprintf("heavy-return-md%d", md), func() string {
+				return "func f(n) { if n < 0 { return 0 } else { return 1 + f(n + 1) } }; f(0)"
+			}, md})
+			out = append(out, c09ChildProg{fmt.Sprintf("heavy-loops-md%d", md), func() string {
+				return "func f(n) { for 1 { for e = [1] { for kv = {1: 2} { if true { return [f(n + 1)] } } } } }; f(0)"
+			}, md})
+		}
+		// evaluation that happens outside the main state: macro expansion time, eval(), unjson(), read() then loop
+		out = append(out,
+			c09P("macro-time-loop", "m = macro(x) { for true { }; quote(unquote(x)) }; m(1)"),
+			c09P("macro-time-recursion", "m = macro(x) { f = func(n) { f(n + 1) }; f(0); quote(unquote(x)) }; m(1)"),
+			c09P("macro-time-growth", "m = macro(x) { a = [1, 2, 3, 4, 5, 6, 7, 8, 9]; for 60 { a = a + a }; quote(unquote(x)) }; m(1)"),
+			c09P("macro-arg-nesting", "m = macro(x) { quote(unquote(x) + unquote(x)) }; "+strings.Repeat("m(", 40)+"1"+strings.Repeat(")", 40)),
+			c09P("eval-loop", `eval("for true { }")`),
+			c09P("eval-recursion", `eval("func r(n) { r(n + 1) }; r(0)")`),
+			c09P("eval-nested-eval", `func e(n) { eval("e(" + str(n + 1) + ")") }; e(0)`),
+			c09P("eval-deep-source", `eval("(" * 1000000 + "1" + ")" * 1000000)`),
+			c09P("unjson-deep", `unjson("[" * 1000000 + "]" * 1000000)`),
+			c09P("unjson-deep-map", `unjson("{\"a\":" * 1000000 + "1" + "}" * 1000000)`),
+			c09P("read-then-loop", "l = read(); for true { }"),
+			c09P("value-nesting-print", "a = []; for 100000000 { a = [a] }; println(len(str(a)))"),
+			c09P("value-nesting-compare", "a = []; b = []; for 100000000 { a = [a]; b = [b] }; a == b"),
+			c09P("value-nesting-json", "a = []; for 100000000 { a = [a] }; json(a)"),
+			c09P("value-nesting-map", "m = {}; for 100000000 { m = {1: m} }; m == m"),
+		)
 		out = append(out,
 			c09P("default-depth-recursion", "func r(n) { r(n + 1) }; r(0)"),
 			c09P("default-depth-mutual", "func a(n) { b(n + 1) }; func b(n) { a(n + 1) }; a(0)"),
@@ -334,7 +377,7 @@ func c09Child(args []string) int {
 		if only != "" && p.name != only {
 			continue
 		}
-		x := newSess(sessCfg{})
+		x := newSess(sessCfg{maxDepth: p.maxDepth})
 		x.opts.MaxDuration = time.Second
 		fmt.Printf("C09START %s\n", p.name)
 		t0 := time.Now()
@@ -488,6 +531,159 @@ func c09Children(c *core.Ctx, bounds *[]string) {
 	*bounds = append(*bounds, fmt.Sprintf("child processes (ulimit -v 8GiB, 1 s deadline, 60 s watchdog): %d deeply nested sources / default-depth recursions; %d growth programs (string*int, array*int, int:int with magnitudes around the budget, 2^31, 2^60, 2^62, 2^63-1 and wrapping products; doubling loops with + and *, join/split/runes, merge; non-terminating loops and sleep) x GOMEMLIMIT %v MiB: the child must survive, return within deadline+5 s, stay usable and keep peak RSS <= 4x limit + 64 MiB", len(c09ChildPrograms("deep", c.Quick())), len(c09ChildPrograms("mem", c.Quick())), limits))
 }
 
+// c09CLI runs the grol command itself: the limits given on the command line must be in force in every mode.
+func c09CLI(c *core.Ctx, bounds *[]string) {
+	self, _ := os.Executable()
+	grol := self + ".grol"
+	if _, err := os.Stat(grol); err != nil {
+		c.Note("cli-binary-missing", 1)
+		return
+	}
+	dir, err := os.MkdirTemp("", "c09cli")
+	if err != nil {
+		return
+	}
+	defer os.RemoveAll(dir)
+	depthRe := regexp.MustCompile(`max depth (\d+) reached`)
+	progs := []struct{ name, src string }{
+		{"recursion", "func r(n) { r(n + 1) }; r(0)"},
+		{"mutual", "func a(n) { b(n + 1) }; func b(n) { a(n + 1) }; a(0)"},
+		{"closure", "mk = func(k) { inner = mk(k + 1); () => inner() }; mk(0)"},
+	}
+	modes := []string{"file", "command", "shebang", "stdin-file"}
+	n := 0
+	for _, md := range []int{10, 11, 50, 1000, 20000} {
+		for pi, p := range progs {
+			seen := map[string]string{}
+			for _, mode := range modes {
+				key := fmt.Sprintf("cli|depth|%d|%s|%s", md, p.name, mode)
+				if !c.MineNoDedup("cli", fmt.Sprintf("cli|depth|%d|%d", md, pi)) { // all modes of one (limit, program) in one worker
+					continue
+				}
+				file := filepath.Join(dir, fmt.Sprintf("p%d_%d.gr", md, pi))
+				_ = os.WriteFile(file, []byte(p.src+"\n"), 0o644)
+				args := []string{"-no-auto", "-max-depth", fmt.Sprint(md), "-max-duration", "20s"}
+				var stdin io.Reader
+				switch mode {
+				case "file":
+					args = append(args, file)
+				case "command":
+					args = append(args, "-c", p.src)
+				case "shebang":
+					args = append(args, "-s", file)
+				case "stdin-file":
+					args = append(args, "-")
+					stdin = strings.NewReader(p.src + "\n")
+				}
+				cmd := exec.Command("bash", "-c", fmt.Sprintf("ulimit -v %d; exec \"$0\" \"$@\"", 8<<20), grol)
+				cmd.Args = append(cmd.Args, args...)
+				cmd.Env = append(os.Environ(), "GOMEMLIMIT=1GiB", "NO_COLOR=1")
+				cmd.Stdin = stdin
+				cmd.Dir = dir
+				var buf bytes.Buffer
+				cmd.Stdout, cmd.Stderr = &buf, &buf
+				err := runWithTimeout(cmd, 60*time.Second)
+				out := buf.String()
+				cs := core.Case{Kind: "cli", Cfg: fmt.Sprintf("-max-depth %d mode=%s", md, mode), Data: p.src}
+				outcome := "limit-enforced"
+				m := depthRe.FindStringSubmatch(out)
+				switch {
+				case err == errTimeout:
+					outcome = "does-not-return"
+				case strings.Contains(out, "fatal error:") || strings.Contains(out, "goroutine stack exceeds"):
+					outcome = "process-death"
+				case strings.Contains(out, "flag provided but not defined") || strings.Contains(out, "no such file"):
+					outcome = "mode-not-available"
+				case m == nil:
+					outcome = "no-max-depth-failure"
+				default:
+					seen[mode] = m[1]
+				}
+				if outcome != "limit-enforced" && outcome != "mode-not-available" {
+					c.Report(&core.Viol{Class: "cli:" + outcome, Detail: fmt.Sprintf("grol %s: %s", strings.Join(args[:4], " "), trunc(lastLines(out, 3), 300)), Case: cs, FindText: mode})
+				}
+				c.CountNT(key, "cli:"+outcome, true)
+				n++
+			}
+			// the limit in force must be the same in every mode (the one the flag asks for)
+			ref := ""
+			for _, mode := range modes {
+				v, ok := seen[mode]
+				if !ok {
+					continue
+				}
+				if ref == "" {
+					ref = v
+				}
+				if v != ref {
+					c.Report(&core.Viol{Class: "cli:limit-differs-between-modes", Detail: fmt.Sprintf("-max-depth %d: %v", md, seen), Case: core.Case{Kind: "cli", Cfg: fmt.Sprintf("-max-depth %d", md), Data: p.src}, FindText: mode})
+					break
+				}
+			}
+			if ref != "" && ref != fmt.Sprint(md+1) && ref != fmt.Sprint(md) {
+				c.Report(&core.Viol{Class: "cli:limit-not-the-configured-one", Detail: fmt.Sprintf("-max-depth %d reported %s", md, ref), Case: core.Case{Kind: "cli", Cfg: fmt.Sprintf("-max-depth %d", md), Data: p.src}})
+			}
+		}
+	}
+	// deadline on the command line
+	for _, mode := range []string{"file", "command"} {
+		for _, d := range []string{"1ms", "50ms", "1s"} {
+			if !c.MineNoDedup("cli", "cli|deadline|"+mode+d) {
+				continue
+			}
+			src := "for true { }"
+			file := filepath.Join(dir, "loop.gr")
+			_ = os.WriteFile(file, []byte(src+"\n"), 0o644)
+			args := []string{"-no-auto", "-max-duration", d}
+			if mode == "file" {
+				args = append(args, file)
+			} else {
+				args = append(args, "-c", src)
+			}
+			cmd := exec.Command(grol, args...)
+			cmd.Env = append(os.Environ(), "GOMEMLIMIT=1GiB", "NO_COLOR=1")
+			var buf bytes.Buffer
+			cmd.Stdout, cmd.Stderr = &buf, &buf
+			t0 := time.Now()
+			err := runWithTimeout(cmd, 30*time.Second)
+			outcome := "returns"
+			if err == errTimeout || time.Since(t0) > 6*time.Second {
+				outcome = "does-not-return"
+				c.Report(&core.Viol{Class: "cli:deadline-ignored", Detail: fmt.Sprintf("grol %s still running after %v", strings.Join(args, " "), time.Since(t0)), Case: core.Case{Kind: "cli", Cfg: "-max-duration " + d + " mode=" + mode, Data: src}})
+			}
+			c.CountNT("cli|deadline|"+mode+"|"+d, "cli:"+outcome, true)
+			n++
+		}
+	}
+	*bounds = append(*bounds, "command line: grol -max-depth {10,11,50,1000,20000} x 3 recursion programs x modes {file, -c, shebang, stdin}: the configured limit is enforced and is the same in every mode; -max-duration {1ms,50ms,1s} x {file,-c} on a non-terminating loop")
+}
+
+var errTimeout = fmt.Errorf("timeout")
+
+func runWithTimeout(cmd *exec.Cmd, d time.Duration) error {
+	if err := cmd.Start(); err != nil {
+		return err
+	}
+	done := make(chan error, 1)
+	go func() { done <- cmd.Wait() }()
+	select {
+	case err := <-done:
+		return err
+	case <-time.After(d):
+		_ = cmd.Process.Kill()
+		<-done
+		return errTimeout
+	}
+}
+
+func lastLines(s string, n int) string {
+	l := strings.Split(strings.TrimRight(s, "\n"), "\n")
+	if len(l) > n {
+		l = l[len(l)-n:]
+	}
+	return strings.Join(l, " | ")
+}
+
 func runC09(c *core.Ctx) {
 	var bounds []string
 	c09Cancellation(c, &bounds)
@@ -496,6 +692,9 @@ func runC09(c *core.Ctx) {
 	}
 	if !c.Expired() {
 		c09Children(c, &bounds)
+	}
+	if !c.Expired() {
+		c09CLI(c, &bounds)
 	}
 	c.P.Bound = strings.Join(bounds, "; ")
 }
